@@ -32,8 +32,8 @@ ASSUMPTIONS = [
 
 
 class Fn:
-    def __init__(self, name, f, df, sparse=False):
-        self.name, self.f, self.df, self.sparse = name, f, df, sparse
+    def __init__(self, name, f, df, sparse=False, sparse_format="csr"):
+        self.name, self.f, self.df, self.sparse, self.sparse_format = name, f, df, sparse, sparse_format
         self.calls = []
         self.jac_calls = []
         self.fault = None  # None | "raise" | "nan"
@@ -63,9 +63,10 @@ class Fn:
             raise ValueError(f"injected failure of d{self.name}")
         j = self.df(x)
         if self.sparse:
-            from scipy.sparse import csr_array
+            from scipy import sparse as sp
 
-            return csr_array(np.atleast_2d(j))
+            # (any sparse array format is a legal Jacobian; only CSR keeps column indices in .indices)
+            return {"csr": sp.csr_array, "csc": sp.csc_array, "coo": sp.coo_array}[self.sparse_format](np.atleast_2d(j))
         return j
 
 
@@ -119,10 +120,11 @@ def run(ctx):
     c = array([1.0 + 0.5 * i for i in range(dim)])
     a = array([0.25 * (i + 1) for i in range(dim)])
     sparse = t.flag(0.3, "sparse_jacobian")
+    sparse_format = t.pick(["csr", "csc", "coo"], "sparse_format") if sparse else "csr"
     fns = {
         "f": Fn("f", lambda x: float((c * (x - a) ** 2).sum().real) if not np.iscomplexobj(x) else (c * (x - a) ** 2).sum(),
                 lambda x: 2 * c * (x - a)),
-        "g": Fn("g", lambda x: array([x.sum() - 1.0, (x * x).sum() * 0.5]), lambda x: np.vstack([np.ones(dim), x]), sparse=sparse),
+        "g": Fn("g", lambda x: array([x.sum() - 1.0, (x * x).sum() * 0.5]), lambda x: np.vstack([np.ones(dim), x]), sparse=sparse, sparse_format=sparse_format),
     }
     lin_coef = array([[0.5 * (i + 1) for i in range(dim)]])
     p = OptimizationProblem(ds)
